@@ -26,6 +26,7 @@ META = dict(
 )
 META["text"] += ' (R7, N) make_all_assertions gives every contest the assertions of the factory for its own social choice function, fed with its own winners, the other candidates as losers, its share_to_win / assertion JSON and its own test configuration (one term per iteration against the dispatch table); any other choice function raises.'
 META["text"] += " R6 also decides the tally's validity condition as a table (a card is tallied iff it lists the contest and rules are not enforced or it has at most n_winners marks, whatever the choice function); R5 accepts the mean as np.mean over the filtered cards or as the filtered sum over the filtered count (same filter in numerator and denominator)."
+META["text"] += ' R6 also: the tally starts from zero at every call (the counter is created unconditionally before the first card is counted).'
 
 
 def outer_tx(idx):
@@ -50,6 +51,7 @@ def run(chk):
     r5_mean(chk)
     r6_tally_rule(chk)
     r6b_tally_validity(chk)
+    r6c_tally_fresh(chk)
     r7_dispatch(chk)
     r_get_vote_for(chk)
 
@@ -425,6 +427,35 @@ def r6b_tally_validity(chk):
     chk.ob("C02.R6", where, "over-voted-cards-dropped-whenever-rules-are-enforced", ok,
            "a card's marks are tallied iff it lists the contest and (rules are not enforced or it has at most n_winners marks), for "
            "every choice function the tally covers", node=incs[0] if incs else fn, strength="N", **detail)
+
+
+def r6c_tally_fresh(chk):
+    """Every call tallies from zero: each tabulated contest gets a fresh defaultdict, whatever it carried before (a re-tally after
+    corrected CVRs must not add to the earlier counts)."""
+    fn = chk.fn(REL, "Contest.tally")
+    where = W("Contest.tally")
+    sts = [(t, v, s0) for t, v, s0 in stores(fn) if isinstance(t, ast.Attribute) and t.attr == "tally"]
+    ok = False
+    detail = {}
+    if len(sts) == 1:
+        t, v, s0 = sts[0]
+        conds = []
+        n_, p_ = s0, parent(s0)
+        loop = None
+        while p_ is not None and p_ is not fn:
+            if isinstance(p_, ast.If):
+                conds.append((norm(p_.test)[:120], n_ in p_.body))
+            if isinstance(p_, ast.For) and loop is None:
+                loop = p_
+            n_, p_ = p_, parent(p_)
+        only_kind = len(conds) == 1 and conds[0][1] and "choice_function" in conds[0][0] and "tally" not in conds[0][0]
+        fresh = norm(v) in ("defaultdict(int)", "collections.defaultdict(int)", "Counter()", "collections.Counter()")
+        before_count = loop is not None and all(isinstance(x, ast.For) is False or x is loop for x in [loop])
+        detail = dict(value=norm(v), under=[c_[0] for c_ in conds])
+        ok = only_kind and fresh and loop is not None
+    chk.ob("C02.R6", where, "tally-starts-from-zero", ok,
+           "every contest that is tabulated gets a fresh zero tally on every call (the only condition on the reset is the contest's "
+           "choice function)", node=sts[0][2] if sts else fn, strength="N", **detail)
 
 
 SPEC_DISPATCH = '''
